@@ -350,6 +350,40 @@ def check_text_values():
             continue
         if not ok:
             out.append(('text-meta/value', 'copy / freeze / thaw of a lyrics message with text %r are not value copies' % (text,)))
+    # copy with overrides: every attribute name of every type, also the one called "name"; and an
+    # override the type does not have is refused like the constructor refuses it
+    for mk_, ovr in ((lambda: mido.MetaMessage('track_name', name='a'), {'name': 'b'}),
+                     (lambda: mido.MetaMessage('instrument_name', name='a'), {'name': 'b', 'time': 2}),
+                     (lambda: mido.MetaMessage('device_name', name='a'), {'name': ''}),
+                     (lambda: mido.MetaMessage('key_signature', key='C'), {'key': 'Am'}),
+                     (lambda: mido.MetaMessage('time_signature'), {'notated_32nd_notes_per_beat': 4, 'clocks_per_click': 12}),
+                     (lambda: mido.Message('sysex', data=(1,)), {'data': (2, 3)}),
+                     (lambda: mido.Message('songpos', pos=1), {'pos': 16383})):
+        for frozen in (False, True):
+            try:
+                m = mk_()
+                src = freeze_message(m) if frozen else m
+                c = src.copy(**ovr)
+                fresh = type(m)(m.type, **dict({k: v for k, v in vars(m).items() if k != 'type'}, **ovr))
+                if not (thaw_message(c) == fresh) or type(c) is not type(src) or not (src == m):
+                    out.append(('copy-overrides/' + m.type, 'copy(%r) = %s, fresh construction %s' % (ovr, core.srepr(c), core.srepr(fresh))))
+            except Exception as e:
+                out.append(('copy-overrides/%s/raises' % mk_().type, 'copy(%r) raised %r' % (ovr, e)))
+    for mk_ in (lambda: mido.Message('sysex', data=(1,)), lambda: mido.Message('clock'), lambda: mido.Message('songpos'),
+                lambda: mido.MetaMessage('set_tempo'), lambda: mido.MetaMessage('text', text='x'), lambda: mido.MetaMessage('end_of_track')):
+        for ovr in ({'channel': 9}, {'channel': 9, 'time': 1}, {'channel': 'x'}, {'note': 1}, {'bogus': 0}):
+            for frozen in (False, True):
+                m = mk_()
+                src = freeze_message(m) if frozen else m
+                try:
+                    c = src.copy(**ovr)
+                except (ValueError, TypeError, AttributeError):
+                    continue
+                except Exception as e:
+                    out.append(('copy-overrides/wrong-exception', '%s.copy(%r) raised %r' % (m.type, ovr, e)))
+                    continue
+                out.append(('copy-overrides/accepts-foreign-attribute', '%s.copy(%r) returned %s, the constructor refuses these values' % (
+                    m.type, ovr, core.srepr(c))))
     # frozen messages are hashable whatever legal thing was assigned before freezing
     try:
         um = mido.UnknownMetaMessage(0x60, data=(1,))
@@ -360,7 +394,7 @@ def check_text_values():
             out.append(('unknown-meta/list-data/hash', 'frozen unknown meta messages with list data: equal but not usable as keys'))
     except Exception as e:
         out.append(('unknown-meta/list-data/raises/%s' % type(e).__name__, 'freeze / hash of an unknown meta message with list data: %r' % (e,)))
-    return out[:3]
+    return out[:4]
 
 
 def worker(lines):
